@@ -78,6 +78,15 @@ def step (st : St) (op res : String) : St × List String :=
         ({ s := some s, wf := wf, held := [] }, "br:psetup.ok" :: (if r == "ok" then [] else [s!"DIVERGE {if wf then "dom" else "drift"} model=ok"]))
       | .error _ => ({}, "br:psetup.err" :: (if r == "err" then [] else ["DIVERGE dom model=err", "FAIL C19 prefix: setup accepted arguments it cannot honour (pool is not an IPv6 network of a usable size)"]))
     | _ => ({}, ["DIVERGE drift unparsed-result"])
+  | ["prace", _, _] =>
+    -- copies of a new client's first SOLICIT in flight at once (harness/prefix.go): in every
+    -- one-at-a-time order the first copy is delegated a prefix and every other copy, and the repeat
+    -- afterwards, is answered with that same prefix (C09). The history ends here.
+    if res == "ok" then (st, ["br:prefix.prace"])
+    else (st, ["br:prefix.prace", "DIVERGE dom model=same-prefix-for-every-copy",
+               s!"FAIL C09 copies of one SOLICIT in flight at once: {res}",
+               s!"FAIL C16 copies of one SOLICIT in flight at once (no one-at-a-time order does that): {res}",
+               s!"FAIL C08 copies of one SOLICIT in flight at once: {res}"])
   | ["page", _] => (st, ["br:prefix.time-passes"])     -- time is read off the timestamps of the lines that follow
   | "pmsg" :: client :: _depth :: k :: rest =>
     match st.s, k.toNat? with
